@@ -306,6 +306,74 @@ def r19_1(prog, rep, rid='R19.1'):
 
 
 # ------------------------------------------------------------------------------
+# R19.6  derived defaults come after the normalisation of what they read
+#
+def r19_6(prog, rep, rid='R19.6'):
+    from ..flow import guard_atoms
+    rep.rule(rid, 'a statement of TaskDescription._verify which computes an '
+             'attribute from a replacement attribute (ranks, cores_per_rank, '
+             '...) runs after every alias block which writes that '
+             'replacement', minimum=1)
+    f = prog.method(TD[0], TD[1], '_verify')
+    g = cfg_of(f)
+    smap = I.stmt_node_map(g)
+    blocks, ignored = alias_blocks(f)
+    writers = {}            # replacement attr -> [(old, store stmt)]
+    inside = set()
+    for old, block in blocks:
+        env, events = run_block(prog, f, old, block)
+        for b in walk(block):
+            inside.add(id(b))
+        for st, loc, was, now in events:
+            # every attribute the block stores into besides the deprecated
+            # one (whether the value survives is R19.1's question)
+            if loc.startswith('self.') and loc != 'self.' + old:
+                writers.setdefault(loc[5:], []).append((old, st))
+    n = 0
+    for st in walk(f.node):
+        if not isinstance(st, (ast.Assign, ast.AugAssign)) or \
+                id(st) in inside:
+            continue
+        tg = st.targets if isinstance(st, ast.Assign) else [st.target]
+        tkeys = [self_key(t) for t in tg if self_key(t) is not None]
+        if not tkeys:
+            continue
+        node = smap.get(id(st))
+        if node is None:
+            continue
+        reads = set(self_reads(st.value))
+        for atom, pol in guard_atoms(g, node.id):
+            reads |= self_reads(atom)
+        later = g.reachable(node.id) - {node.id}
+        for r in sorted(reads & set(writers)):
+            if r in tkeys:
+                # the replacement normalised from itself: the alias block
+                # overwrites it afterwards anyway
+                continue
+            n += 1
+            late = [(old, w) for old, w in writers[r]
+                    if smap.get(id(w)) is not None and
+                    smap[id(w)].id in later]
+            rep.check(not late, rid, f,
+                      '`%s` reads %r after the alias block(s) of %s'
+                      % (short(st, 50), r, [o for o, w in writers[r]]),
+                      construct=st,
+                      message='`%s` derives %s from %r before the alias block '
+                      '`if self.%s:` copies the deprecated value into %r: for '
+                      'a description which uses the deprecated name the '
+                      'derived value is computed from the default of %r, and '
+                      'differs from what the same description gives with the '
+                      'current name' % (
+                          short(st, 60), '/'.join(tkeys), r,
+                          late[0][0] if late else '', r, r),
+                      loc=f.loc(st),
+                      history="TaskDescription({'executable': 'x', %r: 4})"
+                      ".verify() vs. {'executable': 'x', %r: 4}: %s differs"
+                      % (late[0][0] if late else '', r, '/'.join(tkeys)))
+    rep.stat('derived_statements', n)
+
+
+# ------------------------------------------------------------------------------
 # R19.2  mode -> required attributes
 #
 class VerifyModel:
@@ -636,6 +704,7 @@ class Pipes:
     def __init__(self, prog):
         self.prog  = prog
         self._func = {}
+        self.hoisted = []     # (inner func, name, outer func, ops)
 
     # environment of a function: single assignments, file handles
     def env(self, f):
@@ -681,7 +750,20 @@ class Pipes:
             if expr.id in names and len(names[expr.id]) == 1:
                 return self.pipe(f, names[expr.id][0], sources, env,
                                  depth + 1)
-            raise Unrec('name %r' % expr.id)
+            # a free variable of a nested function: bound once in the
+            # enclosing function - the operations on it ran there
+            outer = f.parent
+            if expr.id not in names and outer is not None:
+                onames, ofiles = self.env(outer)
+                if expr.id in onames and len(onames[expr.id]) == 1:
+                    ops = self.pipe(outer, onames[expr.id][0], sources, None,
+                                    depth + 1)
+                    if ops:
+                        self.hoisted.append((f, expr.id, outer, ops))
+                    return ops
+            raise Unrec('name %r is neither a parameter nor bound exactly '
+                        'once in %s%s' % (expr.id, f.qual, ' or %s'
+                                          % outer.qual if outer else ''))
         if isinstance(expr, ast.BoolOp) and isinstance(expr.op, ast.Or):
             # `x or <default>`: the default replaces a missing value only
             return self.pipe(f, expr.values[0], sources, env, depth + 1)
@@ -822,6 +904,9 @@ def r19_4(prog, rep, rid='R19.4'):
              'reverse order; the PythonTask encoders and get_func_attr agree '
              'on keys, per-key codecs and the outer codec; a default of None '
              'is not handed to a consumer which unpacks it', minimum=19)
+    rep.rule('R19.4b', 'every value of a PythonTask payload is encoded '
+             'inside the function which builds the payload (at call time), '
+             'not once in an enclosing scope', minimum=6)
     P = Pipes(prog)
     ser = prog.module(SER)
     # (d) primitives
@@ -970,13 +1055,39 @@ def r19_4(prog, rep, rid='R19.4'):
                 # reported by the key-set obligation above
                 rep.ok(rid, f, '%s: key %r has no counterpart to compare'
                        % (f.qual, k), f.loc(lit))
+                rep.ok('R19.4b', f, '%s: key %r has no counterpart'
+                       % (f.qual, k), f.loc(lit))
                 continue
             v = values[k]
+            P.hoisted = []
             try:
                 ek = P.pipe(f, v, lambda e: isinstance(e, ast.Name)
                             and e.id in params)
             except Unrec as e:
-                raise AnalysisError('UNRECOGNISED-IDIOM %s: %s' % (f.where, e))
+                raise AnalysisError('UNRECOGNISED-IDIOM %s: value of %r in '
+                                    'the payload: %s' % (f.where, k, e))
+            hoisted = list(P.hoisted)
+            rep.check(not hoisted, 'R19.4b', f,
+                      '%s: the value of %r is encoded when the payload is '
+                      'built' % (f.qual, k), construct='%s: encoded outside'
+                      % k,
+                      message='%s puts `%s` into the payload under %r, but '
+                      'that value was encoded (%s) in the enclosing %s, i.e. '
+                      'once when the wrapper was created and not when the '
+                      'payload is built: what is pickled by value (closure '
+                      'cells, defaults, attributes of a local function) is '
+                      'the state at decoration time. The other encoder%s '
+                      'encode%s at call time' % (
+                          f.qual, hoisted[0][1] if hoisted else '', k,
+                          ', '.join(hoisted[0][3]) if hoisted else '',
+                          hoisted[0][2].qual if hoisted else '',
+                          '' if len(encs) == 2 else 's',
+                          's' if len(encs) == 2 else ''),
+                      loc=f.loc(v),
+                      history='factor = 0; @pythontask def scaled(x): return '
+                      'x * factor; then factor = 2; scaled(10) -> the decoded '
+                      'callable returns 0, the function itself 20 (and '
+                      'PythonTask(scaled, (10,)) decodes to 20)')
             rep.check(inverse(ek, d_keys[k][1]), rid, f,
                       '%s: value of %r encoded with %s, decoded with %s'
                       % (f.qual, k, ek, d_keys[k][1]),
@@ -1332,6 +1443,7 @@ def run(prog, rep, tier):
         'analysis (exit 2)',
     ]
     r19_1(prog, rep)
+    r19_6(prog, rep)
     r19_2(prog, rep)
     r19_2b(prog, rep)
     r19_4(prog, rep)
@@ -1374,6 +1486,32 @@ MUTATIONS = [
     dict(name='R19.1 worker_class cleared without being copied', rules=('R19.1',), edits=[
         (_T, "            self.raptor_class = self.worker_class\n            self.worker_class = ''",
              "            self.worker_class = ''")]),
+    dict(name='R19.6 seed C19-a: use_mpi default moved in front of the alias blocks', rules=('R19.6',), edits=[
+        (_T, "            self.worker_class = ''\n\n        if self.use_mpi is None:\n            self.use_mpi = bool(self.ranks - 1)\n",
+             "            self.worker_class = ''\n"),
+        (_T, "        if not self.get('mode'):\n            self['mode'] = TASK_EXECUTABLE\n",
+             "        if not self.get('mode'):\n            self['mode'] = TASK_EXECUTABLE\n\n        if self.use_mpi is None:\n            self.use_mpi = bool(self.ranks - 1)\n")]),
+    dict(name='R19.6 use_mpi default right before the cpu_processes block', rules=('R19.6',), edits=[
+        (_T, "            self.worker_class = ''\n\n        if self.use_mpi is None:\n            self.use_mpi = bool(self.ranks - 1)\n",
+             "            self.worker_class = ''\n"),
+        (_T, "        if self.cpu_processes:\n            self.ranks = self.cpu_processes\n",
+             "        if self.use_mpi is None:\n            self.use_mpi = bool(self.ranks - 1)\n\n        if self.cpu_processes:\n            self.ranks = self.cpu_processes\n")]),
+    dict(name='R19.6 cpu_processes block moved behind the use_mpi default', rules=('R19.6',), edits=[
+        (_T, "        if self.cpu_processes:\n            self.ranks = self.cpu_processes\n            self.cpu_processes = 0\n\n", ""),
+        (_T, "            self.use_mpi = bool(self.ranks - 1)\n",
+             "            self.use_mpi = bool(self.ranks - 1)\n\n        if self.cpu_processes:\n            self.ranks = self.cpu_processes\n            self.cpu_processes = 0\n")]),
+    dict(name='R19.6 new default derived from cores_per_rank before normalisation', rules=('R19.6',), edits=[
+        (_T, "        # backward compatibility for deprecated attributes\n",
+             "        if self.cores_per_rank > 1 and not self.get('environment'):\n            self.environment = {'OMP_NUM_THREADS': str(self.cores_per_rank)}\n\n        # backward compatibility for deprecated attributes\n")]),
+    dict(name='R19.4b seed C19-b: function serialised once at decoration time', rules=('R19.4b',), edits=[
+        (_Y, "        # ----------------------------------------------------------------------\n        @functools.wraps(f)\n        def decor(*args, **kwargs):\n\n            task = {'func'  : serialize_obj(f),",
+             "        func = serialize_obj(f)\n\n        # ----------------------------------------------------------------------\n        @functools.wraps(f)\n        def decor(*args, **kwargs):\n\n            task = {'func'  : func,")]),
+    dict(name='R19.4b serialised payload cached under another name and reused', rules=('R19.4b',), edits=[
+        (_Y, "        # ----------------------------------------------------------------------\n        @functools.wraps(f)\n        def decor(*args, **kwargs):\n\n            task = {'func'  : serialize_obj(f),",
+             "        cached = serialize_obj(f)\n        blob   = cached\n\n        # ----------------------------------------------------------------------\n        @functools.wraps(f)\n        def decor(*args, **kwargs):\n\n            task = {'func'  : blob,")]),
+    dict(name='R19.4 function serialised in a default argument of the wrapper', rules=('R19.4',), edits=[
+        (_Y, "        def decor(*args, **kwargs):\n\n            task = {'func'  : serialize_obj(f),",
+             "        def decor(*args, _func=serialize_obj(f), **kwargs):\n\n            task = {'func'  : _func,")]),
     dict(name='R19.2 TASK_EVAL asks for command', rules=('R19.2',), edits=[
         (_T, "        elif self.mode == TASK_EVAL:\n            if not self.get('code'):",
              "        elif self.mode == TASK_EVAL:\n            if not self.get('command'):")]),
@@ -1438,6 +1576,18 @@ SILENT = [
     dict(name='kwargs normalised before the dict is built', edits=[
         (_Y, "        task = {'func'  : serialize_obj(func),\n                'args'  : args,\n                'kwargs': kwargs or {}}",
              "        if kwargs is None:\n            kwargs = dict()\n\n        task = {'func'  : serialize_obj(func),\n                'args'  : args,\n                'kwargs': kwargs}")]),
+    dict(name='use_mpi default right behind the cpu_processes block', edits=[
+        (_T, "            self.worker_class = ''\n\n        if self.use_mpi is None:\n            self.use_mpi = bool(self.ranks - 1)\n",
+             "            self.worker_class = ''\n"),
+        (_T, "            self.cpu_processes = 0\n",
+             "            self.cpu_processes = 0\n\n        if self.use_mpi is None:\n            self.use_mpi = bool(self.ranks - 1)\n")]),
+    dict(name='use_mpi default as a comparison', edits=[
+        (_T, "            self.use_mpi = bool(self.ranks - 1)", "            self.use_mpi = self.ranks > 1")]),
+    dict(name='ranks normalised from itself before the alias blocks', edits=[
+        (_T, "        # backward compatibility for deprecated attributes\n",
+             "        self.ranks = int(self.ranks or 1)\n\n        # backward compatibility for deprecated attributes\n")]),
+    dict(name='function serialised into a local of the wrapper', edits=[
+        (_Y, "            task = {'func'  : serialize_obj(f),", "            func = serialize_obj(f)\n            task = {'func'  : func,")]),
     dict(name='alias block through a temporary', edits=[
         (_T, "            self.ranks = self.cpu_processes\n            self.cpu_processes = 0\n",
              "            value = self.cpu_processes\n            self.cpu_processes = 0\n            self.ranks = value\n")]),
